@@ -38,6 +38,35 @@ def _uni(encoding: bool, enc) -> str:
     return 'UnicodeError'
 
 
+def handler_names(f, type_node) -> list[str]:
+    """Class names an `except <type_node>` clause of function f catches.  A
+    bare name bound at module level (or in the class) to a tuple of classes
+    -- `_disconnect_errors = (ConnectionError, EOFError)` -- stands for its
+    members."""
+    if type_node is None:
+        return ['BaseException']
+    out = []
+    for e in (type_node.elts if isinstance(type_node, ast.Tuple)
+              else [type_node]):
+        if isinstance(e, ast.Name):
+            v = None
+            try:
+                v = f.module.module_assigns().get(e.id)
+            except Exception:
+                v = None
+            if isinstance(v, ast.Tuple):
+                out += handler_names(f, v)
+                continue
+        if isinstance(e, ast.Attribute) and isinstance(e.value, ast.Name) \
+                and e.value.id in ('self', 'cls') and f.cls is not None:
+            pa = f.cls.find_attr(e.attr)
+            if pa and isinstance(pa[1], ast.Tuple):
+                out += handler_names(f, pa[1])
+                continue
+        out.append(txt(e).split('.')[-1])
+    return out
+
+
 @dataclass(frozen=True)
 class Esc:
     exc: str
@@ -104,12 +133,7 @@ class Escapes:
             if isinstance(par, ast.Try) and any(cur is s for s in par.body):
                 hs = []
                 for h in par.handlers:
-                    if h.type is None:
-                        hs.append('BaseException')
-                    elif isinstance(h.type, ast.Tuple):
-                        hs += [txt(e).split('.')[-1] for e in h.type.elts]
-                    else:
-                        hs.append(txt(h.type).split('.')[-1])
+                    hs += handler_names(f, h.type)
                 out.append(hs)
             cur = par
         return out
